@@ -1,3 +1,4 @@
+\* Example instantiation; `./check C08` writes DeadlinesTrace_gen.cfg from the code's constants.
 SPECIFICATION TraceSpec
 CONSTANTS
   CCB = 36
